@@ -3,6 +3,7 @@
 # trace monitor clauses (Sched_Trace.tla)
 SCHED_CLAUSE = {
     "avail": "C01", "cycle-not-reported": "C04", "served": "C01", "served-notify": "C01", "update-raised": "C01",
+    "served-as-modelled": "C01", "update-raised-as-modelled": "C01",
     "choice": "C02",
     "time-before": "C03", "no-late-update": "C03", "updated-after-finished": "C03", "monotone": "C03", "times": "C03",
     "end-reached": "C03", "final-times": "C03", "lifecycle": "C03", "update-count": "C03",
